@@ -1445,3 +1445,44 @@ Proof.
   intros WF HL HR t rec r v Hf Hr. pose proof (legal_run_inv _ _ _ WF HL HR) as [_ [_ Hall]].
   specialize (Hall t). rewrite Hf in Hall. pose proof (run_reps _ _ _ _ HR) as ER. cbn [init reps] in ER. rewrite <- ER. apply (g_rep _ _ _ _ _ Hall r v Hr).
 Qed.
+
+(* ------------------------------------------------------------------ *)
+(* which levels are in the data: exactly those the policy selects        *)
+(* ------------------------------------------------------------------ *)
+Definition delivered (h : list event) (t r : Z) : Prop := lookup_rep (t, r) (first_reports h []) <> None.
+
+Lemma levels_by_policy cfg h st : wf_config cfg = true -> legal_hist cfg init h -> run cfg init h = Ok st ->
+  (forall t, find t (trials st) = None -> forall r, is_labeled (srch st) t r = false) /\
+  forall t rec, find t (trials st) = Some rec ->
+    (forall r, is_labeled (srch st) t r = true -> delivered h t r) /\
+    (forall L p, In (L, p) (in_rungs rec) -> In L (rung_levels cfg) /\ delivered h t L /\ is_labeled (srch st) t L = true) /\
+    match pol cfg with
+    | AllData => forall r, is_labeled (srch st) t r = true <-> delivered h t r
+    | Rungs => forall r,
+        (delivered h t r -> rungs_or_max cfg r -> is_labeled (srch st) t r = true) /\
+        (is_labeled (srch st) t r = true ->
+           rungs_or_max cfg r \/ (dec rec <> CONTINUE /\ exists v, reported rec = Some (r, v)))
+    | RungsAndLast => forall r,
+        is_labeled (srch st) t r = true <-> (in_rung rec r = true \/ exists v, reported rec = Some (r, v))
+    end.
+Proof.
+  intros WF HL HR. pose proof (legal_run_inv _ _ _ WF HL HR) as [_ [_ Hall]].
+  pose proof (run_reps _ _ _ _ HR) as ER. cbn [init reps] in ER. unfold delivered. rewrite <- ER. split.
+  - intros t Hf r. specialize (Hall t). rewrite Hf in Hall. destruct Hall as [A _].
+    destruct (is_labeled (srch st) t r) eqn:E; [|reflexivity]. apply is_labeled_In in E as [c Hc]. destruct (A r c Hc).
+  - intros t rec Hf. specialize (Hall t). rewrite Hf in Hall.
+    assert (Hdel : forall r, is_labeled (srch st) t r = true -> lookup_rep (t, r) (reps st) <> None).
+    { intros r E. apply is_labeled_In in E as [c Hc]. destruct (g_val _ _ _ _ _ Hall r c Hc) as [v [A _]]. congruence. }
+    split; [exact Hdel|]. split.
+    + intros L p Hin. destruct (g_in_le _ _ _ _ _ Hall L p Hin) as [A _]. pose proof (g_in_lab _ _ _ _ _ Hall L p Hin) as B. auto.
+    + pose proof (g_pol _ _ _ _ _ Hall) as GP. pose proof (g_present _ _ _ _ _ Hall) as GPr. destruct (pol cfg) eqn:EP.
+      * intro r. split.
+        -- intros Hd Hrm. apply GPr; auto.
+        -- intro E. apply is_labeled_In in E as [c Hc]. exact (GP r c Hc).
+      * intro r. split; [apply Hdel | intro Hd; apply GPr; auto].
+      * intro r. split.
+        -- intro E. apply is_labeled_In in E as [c Hc]. exact (GP r c Hc).
+        -- intros [Hi|[v Hv]].
+           ++ apply in_rung_In in Hi as [p Hp]. exact (g_in_lab _ _ _ _ _ Hall r p Hp).
+           ++ destruct (g_rep _ _ _ _ _ Hall r v Hv) as [_ B]. apply B. congruence.
+Qed.
